@@ -2,36 +2,6 @@
 From PegV Require Import Base.Tac Base.ListX Spec.Syntax Spec.Peg Proofs.PegRel Model.Calls Generated.PegPeg Reader.Base.
 Local Open Scope Z_scope.
 
-(** layout: what Spacing consumes.  Blanks, line ends and comments that run to a line end. *)
-Definition is_lb (c : rune) : Prop := c = 10 \/ c = 13.
-Definition nolb (body : list rune) : Prop := Forall (fun c => c <> 10 /\ c <> 13) body.
-Inductive lay : list rune -> Prop :=
-| lay_nil : lay []
-| lay_sp c s : c = 32 \/ c = 9 \/ c = 10 \/ c = 13 -> lay s -> lay (c :: s)
-| lay_hash body e s : nolb body -> is_lb e -> lay s -> lay (35 :: body ++ e :: s)
-| lay_slashes body e s : nolb body -> is_lb e -> lay s -> lay (47 :: 47 :: body ++ e :: s).
-
-(** what follows a layout: not the start of another blank or comment *)
-Definition stop (rest : list rune) : Prop :=
-  match rest with
-  | [] => True
-  | c :: r => c <> 32 /\ c <> 9 /\ c <> 10 /\ c <> 13 /\ c <> 35 /\ (c = 47 -> match r with 47 :: _ => False | _ => True end)
-  end.
-
-(** identifiers: [[a-z_]] then letters, digits, '_' *)
-Definition is_istart (c : rune) : bool := ((97 <=? c) && (c <=? 122)) || ((65 <=? c) && (c <=? 90)) || (c =? 95).
-Definition is_icont (c : rune) : bool := is_istart c || ((48 <=? c) && (c <=? 57)).
-Definition ident_ok (id : list rune) : bool :=
-  match id with c :: r => is_istart c && forallb is_icont r | [] => false end.
-(** what may follow an identifier's characters *)
-Definition not_icont_head (s : list rune) : Prop := forall c r, s = c :: r -> is_icont c = false.
-
-(** action text: braces balance *)
-Inductive bal : list rune -> Prop :=
-| bal_nil : bal []
-| bal_char c s : c <> 123 -> c <> 125 -> bal s -> bal (c :: s)
-| bal_nest a s : bal a -> bal s -> bal (123 :: a ++ 125 :: s).
-
 Section Lex.
 Variable buf : list rune.
 Variable penv : nat -> nat -> bool.
